@@ -740,14 +740,14 @@ pub fn run(ctx: &ChildCtx, sh: &mut Shard) {
                 // every shard runs the carrying pairs of the property's boundary
                 let carry: Option<(Option<(u64, u64)>, bool)> = match idx {
                     3 => Some((Some((0x1_FFFF_FFFF, 1)), true)),
-                    4 => Some((Some((0xFFFF_FFFF, 1)), false)),
-                    13 => Some((Some((0xFFFF_FFFF, 0xFFFF_FFFF)), false)),
-                    14 => Some((Some((0x1_FFFF_FFFF, 0xFFFF_FFFF)), true)),
-                    23 | 33 => Some((None, true)),
-                    24 | 34 => Some((None, false)),
+                    13 => Some((Some((0xFFFF_FFFF, 1)), false)),
+                    23 => Some((Some((0xFFFF_FFFF, 0xFFFF_FFFF)), false)),
+                    24 => Some((Some((0x1_FFFF_FFFF, 0xFFFF_FFFF)), true)),
+                    33 | 53 => Some((None, true)),
+                    34 | 54 => Some((None, false)),
                     _ if idx >= 100 && idx % 100 == 43 => Some((None, true)),
                     _ if idx >= 100 && idx % 100 == 44 => Some((None, false)),
-                    _ => None,
+                    _ => None, // 4, 14, 43, 44, ...: aggregates without carry
                 };
                 match carry {
                     Some((forced, odd)) => ("aggregate_carry", case_aggregate_carry(&mut j, &mut r, &mut cr, forced, odd)),
